@@ -411,6 +411,53 @@ def check(run, repo, world):
                    "pool.pop() is not guarded by a non-empty test",
                    where(mod, n))
 
+    # (e) the caller's collection of permitted addresses is walked once: it
+    # may be a one-shot iterable (a generator, filter(), map()), and whatever
+    # walks it before the copy leaves the copy empty - every unit is then
+    # withdrawn unaddressed although permitted addresses were free
+    from ..cfg import reaching_defs, defs_reaching
+    ap = "available_addresses"
+    rdp = reaching_defs(cfg, [a.arg for a in fn.args.args])
+    walks = []
+    for n in cfg.reachable:
+        if n.ast is None or n.kind not in ("stmt", "test", "for"):
+            continue
+        root = n.ast.iter if n.kind == "for" else n.ast
+        for x in ast.walk(root):
+            if not (isinstance(x, ast.Name) and x.id == ap and isinstance(
+                    x.ctx, ast.Load)):
+                continue
+            if defs_reaching(rdp, n, ap) != {cfg.entry.id}:
+                continue          # the sequence's own list by now
+            par = [p_ for p_ in ast.walk(root) if any(
+                ch is x for ch in ast.iter_child_nodes(p_))]
+            par = par[0] if par else None
+            if isinstance(par, ast.Compare) and len(par.ops) == 1 and \
+                    isinstance(par.ops[0], (ast.Is, ast.IsNot)):
+                continue          # `is None`: looks at nothing
+            walks.append((n, unparse(par if par is not None else x, 60)))
+    # two walks on one path?  (must not both be reachable one from the other)
+    def reach(a, b):
+        seen, stack = set(), [a]
+        while stack:
+            m_ = stack.pop()
+            for (l_, k_) in m_.succ:
+                if k_ is b:
+                    return True
+                if k_.id not in seen:
+                    seen.add(k_.id)
+                    stack.append(k_)
+        return False
+    twice = [(a[1], b[1]) for i_, a in enumerate(walks)
+             for b in walks[i_ + 1:]
+             if a[0] is b[0] or reach(a[0], b[0]) or reach(b[0], a[0])]
+    run.ob("R-COMM-POOL", C + "#permitted-set-walked-once", not twice,
+           "the caller's %s is walked more than once on a path (%s): a "
+           "one-shot iterable is exhausted by the first walk and the copy "
+           "the sequence works from is empty" % (ap, twice[:2]),
+           where(mod, fn))
+    run.floor("uses of the caller's permitted set", len(walks), 1)
+
     # ---- R-COMM-CLASH -----------------------------------------------------
     _check_find_next(run, repo, world, cfg, ys, ynode)
     _check_advance(run, mod, C, fn)
